@@ -571,7 +571,8 @@ class Unit:
             return Chunk("repo", label, "\n\n".join(parts), relfile, (src.line_of(it.start), src.line_of(it.end - 1)), None, fns)
 
         if it.kind in ("struct", "enum", "const", "type", "static"):
-            raw = src.text_of(it)
+            # include the attributes in front of the item so that W0 can keep the derives Verus understands
+            raw = src.text[it.attr_start:it.end]
             sha = hashlib.sha256(raw.encode()).hexdigest()
             text = strip_attributes(raw, self.report, label)
             if it.kind == "struct" and "keep_fields" in icfg:
@@ -709,11 +710,14 @@ def publicise(text: str, kind: str, report: DropReport, item: str, in_trait_impl
             n += 1
             i = e
         i += 1
-    if not in_trait_impl and ct and ct[0].text != "pub" and kind in ("fn", "struct", "enum", "const", "static", "type"):
-        fr.insert(ct[0].start, "pub ")
+    h = 0
+    while h < len(ct) and ct[h].text == "#":
+        h = R.match_close(ct, h + 1) + 1
+    if not in_trait_impl and h < len(ct) and ct[h].text != "pub" and kind in ("fn", "struct", "enum", "const", "static", "type"):
+        fr.insert(ct[h].start, "pub ")
         n += 1
     if kind == "struct":
-        k = 0
+        k = h
         while k < len(ct) and ct[k].text not in ("{", "(", ";"):
             if ct[k].text == "<":
                 k = R.skip_generics(ct, k)
